@@ -129,6 +129,19 @@ def scalars(bits, seed, tier="thorough"):
         for j in (1, 2, 3, v12 // 2, v12 - 2, v12 - 1, v12):
             t = (2 * j - 1) * r // (2 * v12)
             vals += [t - 1, t, t + 1, t + 2]
+        # ... and the thresholds at which the rounded quotient itself (a 128-bit intermediate, two stored words) takes a boundary word
+        # pattern: low word 0, 1, 2^32 +- 1, 2^64 - 1, high word 0, 2^63, the top - for both lattice coefficients (|x|^2 - 1 and |x|^2)
+        los = (1, 2**32 + 1, 2**64 - 1) if tier != "thorough" else (0, 1, 2**32 - 1, 2**32, 2**32 + 1, 2**63, 2**64 - 1)
+        for vv in (v12, v12 + 1):
+            his = (0, 2**63, (vv >> 64) - 1) if tier != "thorough" else (0, 1, 2**32, 2**63 - 1, 2**63, (vv >> 64) - 1, vv >> 64)
+            for hi in his:
+                for lo in los:
+                    j = (hi << 64) | lo
+                    if 0 < j < vv:
+                        # where the ROUNDED quotient reaches j (j - 1/2) and where the FLOORED quotient does (j)
+                        for t in ((2 * j - 1) * r // (2 * vv), j * r // vv):
+                            vals += [t - 1, t, t + 1, t + 2]
+                            vals += [(t + 1 + r) % 2**256] if t + 1 + r < 2**256 else []
         thr = (2**128 * r + v12 - 1) // v12
         vals += [thr - 2, thr - 1, thr, thr + 1, thr + 2]
         for i in range(4):
